@@ -150,7 +150,9 @@ class Fn:
         return self.locals[0]["ty"]
 
     def local_name(self, l):
-        return self.varnames.get(l, "_%d" % l)
+        n = self.varnames.get(l, "_%d" % l)
+        m = self.prog.renamed.get(self.root if self.kind == "closure" else self.path) if self.prog.renamed else None
+        return m.get(n, n) if m else n
 
     def is_cleanup(self, bb):
         return self.blocks[bb].get("cleanup", False)
@@ -369,6 +371,7 @@ class Prog:
     def __init__(self, facts, meta=None):
         self.facts = facts
         self.meta = meta or {}
+        self.renamed = {}
         self.fns = {}
         for raw in facts["fns"]:
             self.fns[raw["path"]] = Fn(self, raw)
@@ -376,7 +379,6 @@ class Prog:
         self.impls = facts["impls"]
         self.traits = {t["path"]: t for t in facts.get("traits", [])}
         self.hir = {h["fn"]: h for h in facts.get("hir", [])}
-        self.renamed = {}
         if self.meta.get("crate", facts.get("crate")) == "lsm_tree":
             self._tolerate_renames()
         self.closures_of = defaultdict(list)   # root fn path -> closure Fns (all nesting levels)
